@@ -857,6 +857,19 @@ pub fn run_case(r: &mut Rng, b: &Builtins, model: &mut Model, ev: &mut Ev, case:
                 false,
             ));
         }
+        // the value on top of the stack, by content
+        if let Some(i) = last.find(" top=") {
+            let mtop = &last[i + 5..];
+            let itop = pr.stack.last().map(|v| render_value(&ex, v)).unwrap_or_else(|| "-".to_string());
+            if mtop != itop {
+                return Err(fail(
+                    "lockstep kind=top-value",
+                    format!("after {:?} (pid {pid}): model top {mtop}, impl top {itop}", instr),
+                    &trace,
+                    false,
+                ));
+            }
+        }
         if let Err((kind, detail)) = oracle::check(&ex, &mut shadow) {
             return Err(fail(&format!("oracle kind={kind} path=lockstep"), detail, &trace, true));
         }
